@@ -295,6 +295,13 @@ class Gen:
             sub = _Scope(sc)
             sub.vars[w] = 'R'
             self.features.add('comprehension')
+            if rng.random() < self.p.get('comp_iter_ifexpr_prob', 0):
+                # the iterable is chosen by a comparison chain (which Python cannot lower to a walrus there)
+                ys = rng.choice(ls)
+                chain = f'{self.real(sc, 1)} {rng.choice(["<", "<=", "=="])} {self.real(sc, 1)} {rng.choice(["<", "<=", "!="])} {self.real(sc, 1)}'
+                n1, n2 = self.list_len.get(xs), self.list_len.get(ys)
+                self.features.add('comp_iterable_chain')
+                return f'[{self.real(sub, max(d - 1, 1))} for {w} in ({xs} if {chain} else {ys})]', (n1 if n1 == n2 else None)
             return f'[{self.real(sub, max(d - 1, 1))} for {w} in {xs}]', self.list_len.get(xs)
         if k < 0.8 and self.p['slices']:
             self.features.add('slice')
